@@ -49,6 +49,8 @@ class Behaviour:
             return []
         self.budget -= 1
         hops = 0
+        if kind == "packet" and key == "":
+            hops = p["maxHops"]          # an empty payload carries no hop count: it is never answered with a message
         if kind == "packet" and "h" in key:
             try:
                 hops = int(key.rsplit("h", 1)[1])
@@ -96,6 +98,8 @@ class Behaviour:
                 return None
             self.uid += 1
             msg = f"m{self.uid}h{hops + 1}"
+            if p.get("pEmptyMsg") and r.random() < p["pEmptyMsg"]:
+                msg = ""                 # an empty payload is a payload
             if op == "broadcast":
                 return ["broadcast", msg]
             nn = self.cfg["nNodes"]
@@ -360,6 +364,8 @@ def gen_scenario(seed, force_cfg=None, profile=None, drive=None):
         scn["escapeAt"] = r2.choice([1, 1, 2, 3])
         scn["tolerant"] = True
         prof["pBadDst"] = max(prof.get("pBadDst", 0.12), 0.3)
+    if r2.random() < 0.15:
+        prof["pEmptyMsg"] = 0.15
     if r2.random() < 0.3:
         scn["keywordArgs"] = True
     if r2.random() < 0.3:
